@@ -9,6 +9,7 @@ package chain
 import (
 	"context"
 
+	"github.com/aergoio/aergo/v2/config"
 	"github.com/aergoio/aergo/v2/consensus"
 	"github.com/aergoio/aergo/v2/contract"
 	"github.com/aergoio/aergo/v2/state"
@@ -59,4 +60,38 @@ func VerifC01RunBlock(sdb *state.ChainStateDB, ccc consensus.ChainConsensusClust
 func VerifC01ValidateHeader(sdb *state.ChainStateDB, block *types.Block) error {
 	bv := &BlockValidator{sdb: sdb}
 	return bv.ValidateHeader(block.GetHeader())
+}
+
+// VerifC01Node is the part of a ChainService the REAL newBlockExecutor reads: the state DB, the consensus
+// object handed to the tx executor, the hardfork configuration and a real BlockValidator (header check, tx
+// root check, signature verification by the real SignVerifier workers; the mempool short-cut is switched
+// off as during sync, because there is no actor system). Nothing else of the service is started.
+func VerifC01Node(sdb *state.ChainStateDB, cc consensus.ChainConsensus, hf *config.HardforkConfig, verbose bool) *ChainService {
+	cs := &ChainService{ChainConsensus: cc, Core: &Core{sdb: sdb}, cfg: &config.Config{Hardfork: hf}}
+	cs.validator = NewBlockValidator(nil, sdb, verbose)
+	cs.validator.signVerifier.SetSkipMempool(true)
+	return cs
+}
+
+// VerifC01StopNode stops the validator's signature workers.
+func VerifC01StopNode(cs *ChainService) { cs.validator.Stop() }
+
+// VerifC01ExecBlock is what ChainService.executeBlock does with a block received from the network, up to
+// and including the commit: the real newBlockExecutor (ValidateBlock incl. signature verification of every
+// transaction, fresh BlockState on the current root, NewTxExecutor, reward wiring from the block header,
+// ValidatePost) and blockExecutor.execute. Returns the BlockState it ran on and the error.
+func VerifC01ExecBlock(cs *ChainService, block *types.Block, verifyOnly bool) (*state.BlockState, error) {
+	ex, err := newBlockExecutor(cs, nil, block, verifyOnly)
+	if err != nil {
+		return nil, err
+	}
+	return ex.BlockState, ex.execute()
+}
+
+// VerifC01VerifyTx is the block verifier's own signature check of one transaction (SignVerifier.verifyTx
+// without the mempool short-cut) against the state DB's current state: nil iff a block carrying the
+// transaction passes signature verification on this node.
+func VerifC01VerifyTx(cs *ChainService, tx *types.Tx) error {
+	_, err := cs.validator.signVerifier.verifyTx(nil, tx, false)
+	return err
 }
